@@ -348,17 +348,17 @@ Section Levels.
   Qed.
 End Levels.
 
-(* an awaited call of a coroutine function that behaves as go, under any callee name *)
+(* an awaited call of the other function, a coroutine function that behaves as go *)
 Lemma call_awaited_other : forall Sigma (cx : ctx Sigma) go,
-  behaves_as go (cx_callee cx COther) -> c_mode (cx_callee cx COther) = true ->
-  (forall a k s v, fst (c_call (cx_callee cx COther) a k s) = ROk v -> exists a' k', v = VPending COther a' k') ->
+  behaves_as_other go (cx_callee cx COther) -> c_mode (cx_callee cx COther) = true ->
   forall a k s, exists w, do_call cx COther a k true s = (fst (go a k (cs s)), Build_st (snd (go a k (cs s))) w).
 Proof.
-  intros Sigma cx go Hf Em Htok a k s. unfold behaves_as in Hf. rewrite Em in Hf. unfold do_call.
-  pose proof (Htok a k s) as Hv.
-  destruct (Hf a k s) as [w1 [(E & H1 & H2) | (v & a' & k' & Ht & E & Hr)]]; rewrite E in *; cbn [fst] in Hv.
+  intros Sigma cx go Hf Em a k s. unfold behaves_as_other in Hf. rewrite Em in Hf. unfold do_call.
+  destruct (Hf a k s) as [w1 [(E & H1 & H2) | (v & a' & k' & Ht & E & Hr)]]; rewrite E.
   - destruct (fst (go a k (cs s))); try discriminate H2; rewrite H1; eauto.
-  - destruct (Hv v eq_refl) as (a2 & k2 & ->). discriminate Ht.
+  - destruct (Hr (Build_st (cs s) w1) eq_refl) as [w2 E2].
+    unfold await_val. destruct v; try discriminate Ht. destruct c; try discriminate Ht.
+    cbn in Ht. inversion Ht; subst. rewrite E2. eauto.
 Qed.
 
 (* mock and unimplemented never run the body: nothing at all happens to the state, whatever the callee is *)
@@ -766,6 +766,15 @@ Proof.
       intros s2 Hs2. destruct (run_beh_same_as b accepts CFunc a k s2) as [w2 E]. rewrite E, Hs2. eauto.
     + left. unfold jbase. rewrite Ea. repeat split.
   - apply run_beh_same_as.
+Qed.
+
+Lemma beh_callee_other_async : forall b accepts, behaves_as_other (jbase b accepts COther) (beh_callee b accepts COther true).
+Proof.
+  intros b accepts. unfold behaves_as_other, beh_callee. cbn [c_mode c_call c_resume].
+  intros a k [j w]. exists w. cbn [cs]. destruct (accepts COther a k) eqn:Ea.
+  - right. exists (VPending COther a k), a, k. repeat split.
+    intros s2 Hs2. destruct (run_beh_same_as b accepts COther a k s2) as [w2 E]. rewrite E, Hs2. eauto.
+  - left. unfold jbase. rewrite Ea. repeat split.
 Qed.
 
 Lemma beh_callee_other_sync : forall b accepts, behaves_as (jbase b accepts COther) (beh_callee b accepts COther false).
